@@ -413,10 +413,14 @@ def run_property(here, repo, prop, cfg, tier, seed, tmp, t0):
                 continue
             failed.append(f)
     # extra engines (kani groups) would be merged here
-    extra = P.extra_engines(prop, tier, here, repo, tmp, seed) if hasattr(P, "extra_engines") else None
-    extra_obs, extra_failed, extra_bounded, extra_cmds, extra_wall = [], [], [], [], 0.0
+    import kani_engine
+    extra_obs, extra_failed, extra_bounded, extra_cmds, extra_wall, kani_artefacts = [], [], [], [], 0.0, []
+    try:
+        extra = kani_engine.run(prop, tier, here, repo, tmp, seed)
+    except RuntimeError as e:
+        raise Undecided("kani: %s" % e)
     if extra:
-        extra_obs, extra_failed, extra_bounded, extra_cmds, extra_wall = extra
+        extra_obs, extra_failed, extra_bounded, extra_cmds, extra_wall, kani_artefacts = extra
         checker_cmds += extra_cmds
 
     if vac_unreached:
@@ -482,6 +486,8 @@ def run_property(here, repo, prop, cfg, tier, seed, tmp, t0):
             "fidelity_audit": "ok: woven text minus marked ghost insertions, with recorded rewrites undone, is byte-identical to the source span of every function",
             "functions_not_under_contract": uncontracted,
             "bounded_stand_ins": extra_bounded,
+            "kani_harnesses": extra_obs,
+            "kani_tool_artefacts_ignored": kani_artefacts,
             "known_findings_hit": [k.get("_line") for (_, k) in known_hits],
             "assumption_scan": scan_assumptions(results),
             "stability": {u: r["stability"] for u, r in results.items()},
